@@ -422,8 +422,8 @@ def check_pathstr(tier, seed, work):
                samples=[dict(path="/a[k=]/x]/m:a", note="key value ']/x' followed by a key-less element"),
                         dict(path="/m:a[k=a//.][k2=*]/a[k==]", note="two keys, values with '//', '.', '=', '*'")],
                exhaustive=True, counters=r.get("counters"), spec_drift=(r.get("drift") or [])[:20],
-               alphabet=["a", "/", "[", "]", "=", "\\", " ", ".", "non-ASCII letter", "*"],
-               explanation="every single-key path with a value of length <= %d over the 10-character escape alphabet (alone and followed by a "
+               alphabet=["a", "/", "[", "]", "=", "\\", " ", ".", "non-ASCII letter", "*", "%"],
+               explanation="every single-key path with a value of length <= %d over the 11-character escape alphabet (alone and followed by a "
                "key-less element), and every two-element path with up to two keys and single-character values, is a case; TLC checks "
                "RefDec(RefEnc(p)) = p for the documented grammar; the harness checks StringToStructuredPath(PathToString(p)) = p, "
                "injectivity of PathToString over the whole enumeration, and the same law for the legacy string-slice form."
@@ -765,6 +765,7 @@ CONSTANTS
   Enabled <- %(enabled)s
   MaxOps = 2
   MaxDocLeaves = 2
+  EmptyLLPayload <- MCEmptyLL
 INVARIANT RewritesPreserveIntent
 CONSTRAINT GDEmit
 CHECK_DEADLOCK FALSE
@@ -777,7 +778,7 @@ def check_gnmidiff(prop, tier, seed, work):
     replayed on gnmidiff with the generated schema and without a schema (OpenConfig-style variants)."""
     cfgs = ["cs", "cw"] if tier == "quick" else ["cs", "cw", "co"]
     h, bindir = vf.prepare(work, cfgs)
-    slices = [("G", "EnabledG", "")] if tier == "quick" else [("G", "EnabledG", ""), ("A", "EnabledA", ""), ("B", "EnabledB", "")]
+    slices = [("G", "EnabledG", ""), ("L", "EnabledL", "")] if tier == "quick" else [("G", "EnabledG", ""), ("A", "EnabledA", ""), ("B", "EnabledB", "")]
     states = trans = 0
     results = []
     for name, enabled, mk in slices:
@@ -833,7 +834,7 @@ def check_c20(tier, seed, work):
                samples=[dict(node="list", json="[1]"), dict(op="SetNode-json", path="list-bad-key-type", value="leaflist-nil-element"),
                         dict(api="DiffSetRequest-noschema", request="leaflist-twice")],
                counters=r.get("counters"), configurations=cfgs,
-               explanation="the full grid: 19 schema node kinds x 24 JSON value kinds (Unmarshal with no option, IgnoreExtraFields and "
+               explanation="the full grid: 22 schema node kinds (three of them lists of the compressed packages, whose keys are reachable through two JSON paths) x 28 JSON value kinds (Unmarshal with no option, IgnoreExtraFields and "
                "BestEffortUnmarshal, into an empty and a populated root); 9 path operations x 27 path shapes x 20 TypedValue shapes; 7 "
                "request APIs x 20 request / notification shapes; pairs of malformed operations on one tree; every string over "
                "{a / [ ] = \\ space non-ASCII} up to length %s for StringToPath. This is exhaustive over the shapes of the grid, not over "
